@@ -148,7 +148,8 @@ def _case(draw, tier):
             opts += ["permute_consts", "permute_consts"]
         if opts:
             alt = {"node": a["name"], "how": draw(st.sampled_from(opts))}
-    history = [{"variant": draw(st.integers(0, 3)), "runner": draw(st.sampled_from(["sync", "async"])), "alt": alt is not None and draw(st.booleans())} for _ in range(nruns)]
+    # variants 4 and 5 supply True and 1.0 where variant 1 supplies 1: equal (==, hash) but DIFFERENT arguments
+    history = [{"variant": draw(st.sampled_from([0, 1, 1, 2, 3, 4, 5])), "runner": draw(st.sampled_from(["sync", "async"])), "alt": alt is not None and draw(st.booleans())} for _ in range(nruns)]
     lru_ops = draw(st.lists(st.tuples(st.sampled_from(["get", "set", "set"]), st.integers(0, 6)), min_size=6, max_size=40))
     # raw disk entries: arbitrary payload / signature objects written behind DiskCache's back
     payload = st.one_of(st.binary(max_size=40), st.text(max_size=8), st.integers(), st.none(), st.just("PICKLE_OK"), st.just("PICKLE_GARBAGE"))
@@ -368,6 +369,7 @@ def _check_lru(case):
 
 def _values(g, variant):
     sp = g.inputs
+    variant = {4: True, 5: 1.0}.get(variant, variant)
     vals = {p: ("in", p, variant) for p in sp.required}
     for ps in sp.entrypoints.values():
         for p in ps:
@@ -425,7 +427,7 @@ def _run_pair(case, gspec, runner_kind, variant, backend, trace):
 
 
 def _compare_transparent(tag, out_u, rec_u, out_c, rec_c):
-    if out_u.status != out_c.status or out_u.values != out_c.values:
+    if out_u.status != out_c.status or out_u.values != out_c.values or repr(sorted((out_u.values or {}).items())) != repr(sorted((out_c.values or {}).items())):
         raise Violation("c09.not_transparent", f"[{tag}] uncached={out_u.brief()} cached={out_c.brief()}", what="values" if out_u.status == out_c.status else "status")
     if (out_u.error is None) != (out_c.error is None) or (out_u.error is not None and type(out_u.error) is not type(out_c.error)):
         raise Violation("c09.not_transparent", f"[{tag}] errors differ: {out_u.brief()} vs {out_c.brief()}", what="error")
@@ -463,7 +465,7 @@ def _check_model(tag, attributed, nodes, ctx_u_calls, ctx_c, model, keymap, stat
         calls = ctx_u_calls.get(n["name"], [])
         if k >= len(calls):
             continue  # twin did not execute it that often (failing run cut short); nothing to predict
-        akey = (_ident(n), calls[k])
+        akey = (_ident(n), repr(calls[k]))  # by representation: 1, True and 1.0 are different arguments
         if key in keymap and keymap[key] != akey:
             raise Violation("c09.key_collision", f"[{tag}] one cache key stands for {keymap[key]} and for {akey}", what="collision")
         keymap[key] = akey
